@@ -168,7 +168,7 @@ def handshake_frames(fl: int, a: int, b: int, n: int, pending: bool, pre_send: b
 TCFG = (None, ['polling'], ['websocket'], 'websocket')
 
 
-def _transports(fl, ti, ws_first):
+def _transports(fl, ti, ws_first, via_polling_query=False):
     kw = {}
     if TCFG[ti] is not None:
         kw['transports'] = TCFG[ti]
@@ -201,7 +201,14 @@ def _transports(fl, ti, ws_first):
                 return fail(PROP, 'DISALLOWED-TRANSPORT-USED', 'polling open admitted (status %r)' % sut.status(r), **st)
             return ''
         sid = sut.sids()[0]
-        u = sut.ws_upgrade(sid)
+        if via_polling_query:
+            # the upgrade request names the session's CURRENT transport in the query (transport=polling) and asks for the
+            # switch only through its Upgrade / Connection headers
+            from vf.props.common import WsPeer as _WsPeer
+            u = sut.request('GET', 'transport=polling&sid=' + sid, {'Upgrade': 'websocket', 'Connection': 'Upgrade'}, ws=_WsPeer())
+            st['upgrade_request'] = 'transport=polling + Upgrade header'
+        else:
+            u = sut.ws_upgrade(sid)
         sut.settle()
         u.peer.send('2probe')
         sut.settle()
@@ -210,7 +217,7 @@ def _transports(fl, ti, ws_first):
         tr = sut.transport(sid)
         if 'websocket' not in allowed and (tr == 'websocket' or u.peer.frames):
             return fail(PROP, 'DISALLOWED-TRANSPORT-USED', 'upgrade to websocket on a polling-only server (frames %r)' % (u.peer.frames,), **st)
-        if 'websocket' in allowed and tr != 'websocket':
+        if 'websocket' in allowed and tr != 'websocket' and not via_polling_query:
             return fail(PROP, 'HANDSHAKE-NOT-HONOURED', 'transport %s' % tr, **st)
         return ''
     finally:
@@ -218,12 +225,12 @@ def _transports(fl, ti, ws_first):
 
 
 @cond(quick=dict(timeout=120), thorough=dict(timeout=300))
-def transports_setting(fl: int, ti: int, ws_first: bool) -> str:
+def transports_setting(fl: int, ti: int, ws_first: bool, via_polling_query: bool) -> str:
     """
-    pre: 0 <= fl <= 1 and 0 <= ti < len(TCFG)
+    pre: 0 <= fl <= 1 and 0 <= ti < len(TCFG) and (not via_polling_query or not ws_first)
     post: _ == ''
     """
-    return verdict(untraced(_transports, fl, ti, ws_first))
+    return verdict(untraced(_transports, fl, ti, ws_first, via_polling_query))
 
 
 from vf.validate.stubs import ALL as VALIDATE  # noqa: E402  (stub-vs-real conformance, run before the obligations)
